@@ -27,7 +27,7 @@ from concurrent.futures import ThreadPoolExecutor
 
 from harness import core
 
-ACTIONS = ['AddCd', 'AddBase', 'AddLink', 'AddUse', 'AddUseAgain', 'ParseOk', 'ParseReject', 'ValidateOk', 'ValidateReject',
+ACTIONS = ['AddCd', 'AddMention', 'ExecMention', 'AddBase', 'AddLink', 'AddUse', 'AddUseAgain', 'ParseOk', 'ParseReject', 'ValidateOk', 'ValidateReject',
            'ExecDef', 'ExecCd', 'ExecUse']
 INVARIANTS = ['TypeOK', 'ResolvesUnderRoot', 'RelCdAtUse', 'CdDoesNotMoveOtherRoots', 'WriteRolesNeverReachHome', 'CwdInSandbox',
               'WriteAcceptsOnlySandbox', 'CdAcceptsListed', 'RejectionNamed', 'RejectedBeforeExecution',
@@ -43,17 +43,17 @@ CONSTANTS = {
     'quick': dict(MaxDepth=2, BaseSfx=['d', 'de', 'S', 'AL', 'ASd'], LinkSfx=['E', 'e', 'AS'],
                   PlainBaseSfx=['d', 'AS'], PlainLinkSfx=['E', 'e'],
                   DeepBaseSfx=['d', 'AS'], DeepLinkSfx=['e'], Roles=ALL_ROLES, Phases=ALL_PHASES,
-                  RichPhases=['setup'], DeepPhases=['setup'], CdPos=[0, 1, 2, 3], CdForms=['tmp']),
+                  RichPhases=['setup'], DeepPhases=['setup'], CdPos=[0, 1, 2, 3, 4], CdForms=['tmp']),
     'thorough': dict(MaxDepth=3, BaseSfx=['E', 'd', 'de', 'S', 'Se', 'dT', 'AL', 'AS', 'ASd'],
                      LinkSfx=['E', 'e', 'T', 'ed', 'AL', 'AS'],
                      PlainBaseSfx=['d', 'de', 'S', 'AL', 'ASd'], PlainLinkSfx=['E', 'e', 'AS'],
                      DeepBaseSfx=['d', 'AS'], DeepLinkSfx=['E', 'e'], Roles=ALL_ROLES, Phases=ALL_PHASES,
-                     RichPhases=['setup', 'assert'], DeepPhases=['setup'], CdPos=[0, 1, 2, 3],
+                     RichPhases=['setup', 'assert'], DeepPhases=['setup'], CdPos=[0, 1, 2, 3, 4],
                      CdForms=['tmp', 'sub']),
     # random behaviours beyond the exhaustive bound (no absolute FILE-NAMEs: the deviation is not involved)
     'simulate': dict(MaxDepth=6, BaseSfx=SIM_BASE, LinkSfx=SIM_LINK, PlainBaseSfx=SIM_BASE, PlainLinkSfx=SIM_LINK,
                      DeepBaseSfx=SIM_BASE, DeepLinkSfx=SIM_LINK, Roles=ALL_ROLES, Phases=ALL_PHASES,
-                     RichPhases=ALL_PHASES, DeepPhases=ALL_PHASES, CdPos=[0, 1, 2, 3], CdForms=['tmp', 'sub']),
+                     RichPhases=ALL_PHASES, DeepPhases=ALL_PHASES, CdPos=[0, 1, 2, 3, 4], CdForms=['tmp', 'sub']),
 }
 
 
@@ -226,6 +226,8 @@ def concretize(task, cd):
             body.append('def path P%d = %s' % (sum(1 for l in body if l.startswith('def path P')) + 1, p))
         elif ins['op'] == 'cd':
             body.append('cd %s' % p)
+        elif ins['op'] == 'mention':         # a reference that puts no restriction on the symbol
+            body.append('run % true @[P{0}]@'.format(ins['sym']))
         else:
             want = tag(pa[0]['uses'][n_use - 1]['resolved']) if pa and len(pa[0]['uses']) >= n_use else 'none'
             lines = use_lines(task['role'], p, cd.out, want, n_use)
